@@ -4,6 +4,7 @@ This module defines classes to estimate local background using a
 circular annulus aperture.
 """
 
+import astropy.units as u
 import numpy as np
 
 from photutils.aperture import CircularAnnulus
@@ -80,7 +81,11 @@ class LocalBackground:
         for apermask in apermasks:
             values = apermask.get_values(data, mask=mask)
             bkg.append(self.bkg_estimator(values))
-        bkg = np.array(bkg)
+        if len(bkg) > 0 and isinstance(bkg[0], u.Quantity):
+            # np.array cannot combine Quantity scalars
+            bkg = u.Quantity(bkg)
+        else:
+            bkg = np.array(bkg)
 
         if bkg.size == 1:
             bkg = bkg[0]
